@@ -241,3 +241,58 @@ Proof.
         (split; [reflexivity|]; split; [split; reflexivity|]; split; [discriminate|]; split; [discriminate|]; discriminate).
     + intro H. injection H as <-. apply P3. reflexivity.
 Qed.
+
+(* --------------------------------------------------- NodeMaker node cache *)
+Lemma memokey_inj di s di' s' : memokey di s = memokey di' s' -> di = di' /\ s = s'.
+Proof.
+  unfold memokey. destruct di, di'; vm_compute; intro H; injection H as H; try discriminate; auto.
+Qed.
+
+Lemma cache_lookup_in k cache c : cache_lookup k cache = Some c -> In (k, c) cache.
+Proof.
+  induction cache as [|[k' c'] r IH]; cbn [cache_lookup]; intro H; [discriminate|].
+  destruct (list_N_eqb k k') eqn:E.
+  - apply list_N_eqb_eq in E. injection H as ->. subst. left. reflexivity.
+  - right. apply IH. exact H.
+Qed.
+
+(* The cache is transparent: whatever was created before (in either context, for any caps), and
+   whichever entries the weak dictionary still holds, create_from_cap answers what it would
+   answer with an empty cache -- in particular never a mutable node in a deep-immutable context. *)
+Theorem node_cache_transparent_ok cache rw ro di :
+  cache_ok cache ->
+  fst (create_from_cap cache rw ro di) = create_fresh rw ro di /\ cache_ok (snd (create_from_cap cache rw ro di)).
+Proof.
+  intro I. unfold create_from_cap, create_fresh. destruct (bigcap rw ro) as [s|]; [|split; [reflexivity|exact I]].
+  destruct (cache_lookup (memokey di s) cache) as [c|] eqn:L.
+  - cbn [fst snd]. split; [|exact I]. apply cache_lookup_in in L.
+    unfold cache_ok in I. rewrite Forall_forall in I. destruct (I _ L) as (di' & s' & Hk & Hf & Hb). cbn [fst snd] in *.
+    apply memokey_inj in Hk. destruct Hk as [-> ->]. rewrite Hf, Hb. reflexivity.
+  - cbn [fst snd]. split; [reflexivity|].
+    destruct (from_string di s) as [c| |] eqn:F; try exact I.
+    destruct (builds_node c) eqn:Bn; [|exact I].
+    destruct (is_mutable c) as [[|]|]; try exact I.
+    constructor; [|exact I]. exists di, s. cbn [fst snd]. auto.
+Qed.
+
+Lemma cache_ok_forget cache cache' : cache_ok cache -> incl cache' cache -> cache_ok cache'.
+Proof.
+  unfold cache_ok. rewrite !Forall_forall. intros H Hi e He. apply H. apply Hi. exact He.
+Qed.
+
+Theorem create_fresh_respects_context_ok rw ro s c :
+  (create_fresh rw ro true = MNode c -> is_mutable c <> Some true /\ is_readonly c <> Some false)
+  /\ (bigcap rw ro = Some (ro_prefix ++ s) -> forall di, create_fresh rw ro di = MNode c -> is_readonly c <> Some false)
+  /\ (bigcap rw ro = Some (imm_prefix ++ s) -> forall di, create_fresh rw ro di = MNode c -> is_mutable c <> Some true /\ is_readonly c <> Some false).
+Proof.
+  unfold create_fresh. split; [|split].
+  - destruct (bigcap rw ro) as [b|]; [|discriminate]. destruct (from_string true b) as [c'| |] eqn:F; try discriminate.
+    destruct (builds_node c'); [|discriminate]. intro H. injection H as ->.
+    destruct (alleged_prefix_never_upgrades_ok true b c) as (_ & _ & A). destruct (A F). split; assumption.
+  - intros -> di. destruct (from_string di (ro_prefix ++ s)) as [c'| |] eqn:F; try discriminate.
+    destruct (builds_node c'); [|discriminate]. intro H. injection H as ->.
+    destruct (alleged_prefix_never_upgrades_ok di s c) as (A & _). exact (A F).
+  - intros -> di. destruct (from_string di (imm_prefix ++ s)) as [c'| |] eqn:F; try discriminate.
+    destruct (builds_node c'); [|discriminate]. intro H. injection H as ->.
+    destruct (alleged_prefix_never_upgrades_ok di s c) as (_ & A & _). destruct (A F). split; assumption.
+Qed.
